@@ -518,6 +518,25 @@ def runOp (be : Backend) (args : List String) : M String := do
     let o ← hdrNew exp role (unhex k)
     let rs ← hdrRun o ops
     pure (" ".intercalate rs)
+  | ["thr", exp, role, k, ech, dch] => do
+    -- two halves driven from two threads in the real crate; the model runs them one after the other
+    let o ← hdrNew exp role (unhex k)
+    let es := if ech = "-" then [] else (ech.splitOn ",").map unhex
+    let ds := if dch = "-" then [] else (dch.splitOn ",").map unhex
+    let mut oe := o
+    let mut eo : List String := []
+    for c in es do
+      let (o', out) ← oe.enc c
+      oe := o'
+      eo := eo ++ [hex out]
+    let mut od := o
+    let mut dout : List String := []
+    for c in ds do
+      let (o', out) ← od.dec c
+      od := o'
+      dout := dout ++ [hex out]
+    let j := fun (l : List String) => if l.isEmpty then "-" else ",".intercalate l
+    pure s!"{j eo} {j dout}"
   | ["w.sweep", k, lo, hi, opc] => wSweep (unhex k) (nat! lo) (nat! hi) (nat! opc)
   | ["pin.hash", pin, seed, ss, cs] => do
     match ← liftOut (pinCalculateHash C (nat! pin) (nat! seed) (unhex ss) (unhex cs)) with
